@@ -130,6 +130,7 @@ type c12Rec struct {
 	dup        string
 	ballast    int               // list ops: ballast entries listed
 	blocked    bool              // register ops: the registration call did not return
+	stillOut   func() bool       // blocked ops: reports whether the call has still not returned
 	props      map[string]string // tools/list: name -> the parameter names of the listed input schema
 	ok         bool              // call/get/read succeeded
 	text       string            // call/get/read payload
@@ -181,6 +182,7 @@ func execC12(c C12Case) *Failure {
 			case <-time.After(Patience() + 2*time.Second):
 				// the request handler did not return at all (a handler stuck on the registry it is being served from)
 				r.blocked = true
+				r.stillOut = func() bool { return len(exCh) == 0 }
 				return nil, "the request did not return"
 			}
 			if len(ex.Frames) != 1 {
@@ -297,6 +299,14 @@ func execC12(c C12Case) *Failure {
 			case <-regDone:
 			case <-time.After(Patience() + 2*time.Second):
 				r.blocked = true
+				r.stillOut = func() bool {
+					select {
+					case <-regDone:
+						return false
+					default:
+						return true
+					}
+				}
 			}
 		case "listprompts":
 			list("prompts/list", "prompts", "name")
@@ -331,6 +341,14 @@ func execC12(c C12Case) *Failure {
 			case <-regDone:
 			case <-time.After(Patience() + 2*time.Second):
 				r.blocked = true
+				r.stillOut = func() bool {
+					select {
+					case <-regDone:
+						return false
+					default:
+						return true
+					}
+				}
 			}
 		case "regresnil":
 			// a registration without a handler: whether it is refused or kept (as an entry that cannot be read) is the library's
@@ -513,6 +531,10 @@ func judgeC12(c C12Case, recs []*c12Rec) *Failure {
 		return s
 	}
 	for _, r := range recs {
+		if r.blocked && r.stillOut != nil && r.stillOut() {
+			// not a matter of waiting long enough: the whole history has been worked off since and the call is still out
+			return Failf("C12/registration-blocked", "%s: %s of %q never returned, not by the end of the case either (a registration waits for handlers in progress, or the registry is wedged)\nhistory: %s", c.Mode, r.op.Op, key(r.op), hist())
+		}
 		if r.blocked {
 			return TimingFailf("C12/registration-blocked", "%s: %s of %q did not return (a registration waits for handlers in progress, or the registry is wedged)\nhistory: %s", c.Mode, r.op.Op, key(r.op), hist())
 		}
